@@ -188,7 +188,22 @@ theorem keeps_grant {c : Prop} (s : St) (wk : Kind) (wi : Nat) : Keeps c s (gran
   unfold grant
   split
   · exact keeps_enqueue _ _ _
-  · (refine keeps_trans ?_ (keeps_enqueue _ _ _); exact keeps_of_core s _ rfl)
+  · split
+    · exact keeps_of_core s _ rfl
+    · (refine keeps_trans ?_ (keeps_enqueue _ _ _); exact keeps_of_core s _ rfl)
+
+/-- dropping a `Sleep`: fewer pending timers -/
+theorem keeps_removeTimer {c : Prop} (s : St) (tm : Timer) : Keeps c s (removeTimer s tm) := by
+  unfold removeTimer
+  refine ⟨?_, rfl, Nat.le_refl _, rfl, fun _ h => h⟩
+  rintro _ ⟨h1, h2, h3, h4, h5, h6⟩
+  exact ⟨h1, h2, h3, h4, h5, fun x hx => h6 x (List.mem_of_mem_erase hx)⟩
+
+theorem keeps_removeWaiter {c : Prop} (s : St) (q : Nat) (w : Kind × Nat) : Keeps c s (removeWaiter s q w) := by
+  unfold removeWaiter
+  split
+  · exact keeps_refl s
+  · exact keeps_of_core s _ rfl
 
 theorem keeps_wakeCond {c : Prop} (s : St) (k : Nat) : Keeps c s (wakeCond s k) := by
   unfold wakeCond
@@ -301,6 +316,30 @@ theorem keeps_runProg (k : Kind) (i : Nat) :
         · split
           · exact hcont _ s (keeps_refl s)
           · exact keeps_refl s
+    | waitT q d =>
+      simp only [runProg]
+      split
+      · exact keeps_refl s
+      · split
+        · split
+          · rename_i cd _ _ hlt
+            have h0 : Keeps (org = Phase.foreign ∨ rdy = s.now) s
+                { s with conds := s.conds.set q { cd with waiters := cd.waiters ++ [(k, i)] } } :=
+              keeps_of_core s _ rfl
+            have h1 := keeps_trans h0 (keeps_of_core _ _ (core_setProg _ i (.waitingT q (s.now + d) :: r)))
+            refine keeps_trans h1 (keeps_addTimer _ _ ?_)
+            rw [h1.2.1]; exact hlt
+          · exact hcont c s (keeps_refl s)
+        · exact hcont _ _ (keeps_of_core s _ rfl)
+    | waitingT q t =>
+      simp only [runProg]
+      split
+      · exact keeps_refl s
+      · split
+        · exact hcont _ _ (keeps_trans (keeps_of_core s _ rfl) (keeps_removeTimer _ _))
+        · split
+          · exact keeps_refl s
+          · exact hcont _ _ (keeps_removeWaiter s q (k, i))
     | sleep d =>
       simp only [runProg]
       split
@@ -456,6 +495,8 @@ theorem runH_inv : ∀ (h : List Instr) (s : St), Inv s → Inv (runH h s) ∧ (
       exact ⟨h2.1, h2.2.trans h1.2.1⟩
     | waiting _ => simp only [runH]; exact ih s hi
     | joining _ => simp only [runH]; exact ih s hi
+    | waitT _ _ => simp only [runH]; exact ih s hi
+    | waitingT _ _ => simp only [runH]; exact ih s hi
     | wait _ => simp only [runH]; exact ih s hi
     | yield => simp only [runH]; exact ih s hi
     | resume => simp only [runH]; exact ih s hi
@@ -581,16 +622,21 @@ theorem exec_inv (P : Params) (h : List Instr) (s : St) (hi : Inv s) : Inv (exec
 
 /-! ### events -/
 
+theorem keeps_fire (s : St) (tm : Timer) : Keeps (tm.deadline = s.now) s (fire s tm) := by
+  unfold fire
+  split
+  · exact keeps_refl s
+  · exact keeps_mono (fun h => Or.inr h) (keeps_pushEntry s ⟨tm.kind, tm.idx, tm.deadline, .timer⟩)
+
 theorem foldl_pushT_inv (l : List Timer) :
-    ∀ s : St, Inv s → (∀ tm ∈ l, tm.deadline = s.now) →
-      Inv (l.foldl (fun s tm => pushEntry s ⟨tm.kind, tm.idx, tm.deadline, .timer⟩) s) := by
+    ∀ s : St, Inv s → (∀ tm ∈ l, tm.deadline = s.now) → Inv (l.foldl fire s) := by
   induction l with
   | nil => intro s hi _; exact hi
   | cons a l ih =>
     intro s hi hl
     simp only [List.foldl_cons]
-    have hk := keeps_pushEntry s ⟨a.kind, a.idx, a.deadline, .timer⟩
-    refine ih _ (hk.1 (Or.inr (hl a List.mem_cons_self)) hi) ?_
+    have hk := keeps_fire s a
+    refine ih _ (hk.1 (hl a List.mem_cons_self) hi) ?_
     intro tm he
     rw [hk.2.1]
     exact hl tm (List.mem_cons_of_mem _ he)
@@ -691,7 +737,9 @@ theorem kf_grant (s : St) (wk : Kind) (wi : Nat) : KF s (grant s wk wi) := by
   unfold grant
   split
   · exact kf_enqueue _ _ _
-  · (refine kf_trans ?_ (kf_enqueue _ _ _); exact kf_of_same s _ rfl rfl rfl rfl rfl rfl rfl)
+  · split
+    · exact kf_of_same s _ rfl rfl rfl rfl rfl rfl rfl
+    · (refine kf_trans ?_ (kf_enqueue _ _ _); exact kf_of_same s _ rfl rfl rfl rfl rfl rfl rfl)
 
 theorem kf_grantAll : ∀ (l : List (Kind × Nat)) (s : St), KF s (grantAll l s) := by
   intro l
